@@ -1,7 +1,7 @@
 (* Properties_C09.v — C09: results are independent of container kind and of compile-
    vs run-time knowledge.  Statements only.  The theorems state the fit guard; that every
    C++ container kind implements `store` is what the generated correspondence observes. *)
-From NM Require Import Base Index Broadcast Kinds KindIndep.
+From NM Require Import Base Index Broadcast Views Kinds KindIndep KindIndepShapes.
 Local Open Scope Z_scope.
 
 Theorem C09_fit_implies_ideal : forall k r, fits_kind k r = true -> store k r = r.
@@ -31,6 +31,23 @@ Theorem C09_broadcast_kind_independent : forall k1 k2 a b,
   ostore k1 (broadcast_shape2 a b) = np_broadcast2 a b /\ ostore k2 (broadcast_shape2 a b) = np_broadcast2 a b.
 Proof. exact broadcast_kind_independent. Qed.
 Print Assumptions C09_broadcast_kind_independent.
+
+(* reshape and broadcast_to: acceptance AND accepted shape are NumPy's for any two kinds that can hold the ideal result —
+   in particular a request that must be rejected is rejected whatever the kind of the shape containers *)
+Theorem C09_reshape_kind_independent : forall k1 k2 src dst,
+  pos src -> prod src < 2 ^ 64 -> dst <> [] -> prod (np_known dst) < 2 ^ 64 ->
+  (forall r, shape_reshape src dst = Some r -> fits_kind k1 r = true /\ fits_kind k2 r = true) ->
+  ostore k1 (shape_reshape src dst) = np_reshape_shape src dst
+  /\ ostore k2 (shape_reshape src dst) = np_reshape_shape src dst.
+Proof. exact shape_functions_kind_independent. Qed.
+Print Assumptions C09_reshape_kind_independent.
+
+Theorem C09_broadcast_to_kind_independent : forall k1 k2 a b,
+  (forall r, option_map fst (shape_broadcast_to a b) = Some r -> fits_kind k1 r = true /\ fits_kind k2 r = true) ->
+  ostore k1 (option_map fst (shape_broadcast_to a b)) = np_broadcast_to_shape a b
+  /\ ostore k2 (option_map fst (shape_broadcast_to a b)) = np_broadcast_to_shape a b.
+Proof. exact broadcast_to_kind_independent. Qed.
+Print Assumptions C09_broadcast_to_kind_independent.
 
 Theorem C09_constexpr_is_same_function : forall (X Y : Type) (f : X -> Y) (c v : X), v = c -> f v = f c.
 Proof. intros X Y. exact (@constexpr_same X Y). Qed.
